@@ -12,15 +12,15 @@ package libmem
 //@ func (*journal).assign ints=bv64
 //@   requires jwf(j)
 //@   modifies j.updates[*] if j != nil, j.reverts[*] if j != nil
-//@   ensures[C06] j != nil ==> dom(j.updates) == upd(old(dom(j.updates)), id, true) && vals(j.updates) == upd(old(vals(j.updates)), id, zone)
-//@   ensures[C06] j != nil && old(id in j.reverts) ==> dom(j.reverts) == old(dom(j.reverts)) && vals(j.reverts) == old(vals(j.reverts))
-//@   ensures[C06] j != nil && !old(id in j.reverts) ==> dom(j.reverts) == upd(old(dom(j.reverts)), id, true) && vals(j.reverts) == upd(old(vals(j.reverts)), id, 0)
+//@   ensures[C06,C07] j != nil ==> dom(j.updates) == upd(old(dom(j.updates)), id, true) && vals(j.updates) == upd(old(vals(j.updates)), id, zone)
+//@   ensures[C06,C07] j != nil && old(id in j.reverts) ==> dom(j.reverts) == old(dom(j.reverts)) && vals(j.reverts) == old(vals(j.reverts))
+//@   ensures[C06,C07] j != nil && !old(id in j.reverts) ==> dom(j.reverts) == upd(old(dom(j.reverts)), id, true) && vals(j.reverts) == upd(old(vals(j.reverts)), id, 0)
 
 //@ func (*journal).delete ints=bv64
 //@   requires jwf(j)
 //@   modifies j.reverts[*] if j != nil
-//@   ensures[C06] j != nil && old(id in j.reverts) ==> dom(j.reverts) == old(dom(j.reverts)) && vals(j.reverts) == old(vals(j.reverts))
-//@   ensures[C06] j != nil && !old(id in j.reverts) ==> dom(j.reverts) == upd(old(dom(j.reverts)), id, true) && vals(j.reverts) == upd(old(vals(j.reverts)), id, zone)
+//@   ensures[C06,C07] j != nil && old(id in j.reverts) ==> dom(j.reverts) == old(dom(j.reverts)) && vals(j.reverts) == old(vals(j.reverts))
+//@   ensures[C06,C07] j != nil && !old(id in j.reverts) ==> dom(j.reverts) == upd(old(dom(j.reverts)), id, true) && vals(j.reverts) == upd(old(vals(j.reverts)), id, zone)
 
 // ---- allocator representation invariant -------------------------------------------------------------
 // users[id] = z  <=>  id in zones[z].users ; zone objects and their user maps are pairwise distinct;
